@@ -43,7 +43,12 @@ def workload(chk):
             p = write(os.path.join(d, "g%d.h" % i), hfuncs.header(hfuncs.generate(rng)))
             fl = [p, "--merge-extern-blocks"] + rng.choice([[], ["--override-abi", "fn[0-9]*[13579]=C-unwind"], ["--sort-semantically"],
                                                              ["--override-abi", "fn[0-9]*[02468]=C-unwind", "--extern-fn-block-attrs", "#[allow(dead_code)]"],
-                                                             ["--wasm-import-module-name", "env"]])
+                                                             ["--wasm-import-module-name", "env"],
+                                                             # two overrides whose patterns overlap: which one wins may be arbitrary, but must be the
+                                                             # same in every run
+                                                             ["--override-abi", "fn[0-9]*[13579]=C-unwind", "--override-abi", "fn1.*=system", "--override-abi", "fn.*3=efiapi"],
+                                                             ["--override-abi", "fn.*=C-unwind", "--override-abi", "fn[0-9]+=system", "--override-abi", "fn[0-9]*w?=win64",
+                                                              "--override-abi", "f.*=efiapi", "--override-abi", ".*=C"]])
         elif k == "types":
             p = write(os.path.join(d, "g%d.h" % i), G.Gen(rng, dict(bf_in_union=False)).generate().header())
             fl = [p] + rng.choice([[], ["--impl-debug", "--with-derive-default"], ["--default-enum-style", "rust"]])
@@ -106,7 +111,8 @@ def processes(chk, item, nrep):
             return Verdict(INCONCLUSIVE, "proc-" + name, "watchdog")
         arte = {"rc": rc}
         if mode == 4:
-            arte["bindings"] = digest(so)
+            # (a failing run leaves no file in the -o modes and an empty stdout here: both mean "no bindings")
+            arte["bindings"] = digest(so) if (rc == 0 or so) else None
         else:
             for key, f in (("bindings", "o.rs"), ("depfile", "o.d")):
                 p = os.path.join(d, f)
@@ -115,6 +121,9 @@ def processes(chk, item, nrep):
             if wrap:
                 wp = wrap[0] + ".c"
                 arte["wrapper"] = digest(open(wp, "rb").read()) if os.path.exists(wp) else None
+        if rc != 0:
+            # a rejected input: only the exit status is compared (what a failing run leaves behind is C12's subject)
+            arte = {"rc": rc}
         obs["artefacts_hashed"] += len(arte) - 1
         if ref is None:
             ref = arte
